@@ -184,11 +184,55 @@ def _replay_one(job):
         shutil.rmtree(wd, True)
 
 
+def _dict_would(c, e):
+    """contents a dict would have after the operation of event e (an operation that raised is taken to change nothing)"""
+    c = [list(row) for row in c]
+    m = c[e['loc'] - 1]
+    op = e['op']
+    if e['exc'] != 'none':
+        return c
+    if op in ('set',):
+        m[e['k'] - 1] = e['v']
+    elif op == 'setbad':
+        m[e['k'] - 1] = dd.BAD
+    elif op == 'setdefault':
+        if m[e['k'] - 1] == 0:
+            m[e['k'] - 1] = e['v']
+    elif op in ('del', 'pop', 'popd'):
+        m[e['k'] - 1] = 0
+    elif op == 'popitem':
+        if len(e['rs']) == 2 and 1 <= e['rs'][0] <= len(m):
+            m[e['rs'][0] - 1] = 0
+    elif op in ('popkeys', 'popkeysd'):
+        for k in e['ks']:
+            m[k - 1] = 0
+    elif op in ('update', 'updatekw'):
+        m[e['k'] - 1] = e['v']
+        m[e['k2'] - 1] = e['v2']
+    elif op == 'updatebad':
+        m[e['k'] - 1] = e['v']
+        m[e['k2'] - 1] = dd.BAD
+    elif op == 'clear':
+        for k in range(len(m)):
+            m[k] = 0
+    elif op == 'copy':
+        c[e['o'] - 1] = list(m)
+    return c
+
+
 def signature(t, v, pid):
     e = t['events'][v[0] - 1]
     m = t['meta']
+    prev = t['events'][v[0] - 2] if v[0] >= 2 else t['init']
+    # the two aliasing key sets: keys 1 and 2 share a directory name.  `alias_effect`: everything this step changed lies
+    # within that pair and every location is still readable - what the (known) aliasing can explain, and nothing else
+    want = _dict_would(prev['c'], e)      # (used to classify a rejection only: the verdict is TLC's)
+    changed = {(l, k) for l in range(len(e['c'])) for k in range(len(e['c'][l])) if e['c'][l][k] != want[l][k]}
+    unreadable = any(x == -9 for row in e['c'] for x in row) or any(x == -9 for row in e.get('cf', []) for x in row)
+    alias_effect = m['keyset'].startswith('alias') and all(k in (0, 1) for (_l, k) in changed) and not unreadable \
+        and e['exc'] in ('none', 'KeyError')
     return {'engine': 'dict', 'clauses': v[1], 'backend': m['backend'], 'family': m['backend'].split('-')[0].split('+')[0],
-            'keyset': m['keyset'], 'valset': m['valset'], 'op': e['op'], 'exc': e['exc']}
+            'keyset': m['keyset'], 'valset': m['valset'], 'op': e['op'], 'exc': e['exc'], 'alias_effect': alias_effect}
 
 
 def plan(pid, tier, rng, behaviours):
